@@ -166,6 +166,88 @@ def run_case(host, defs, procs1, maxprocs, calls_spec):
         rg.close()
 
 
+def loaded_processors_leg(c, host):
+    """EVERY active metric processor - also when the processors come through the real plugin loader: two third-party
+    modules that both call their class `MetricsPlugin` (the plugin name defaults to the class name), a processor that is
+    listed twice, one that is switched off by its PLUGIN_<NAME> setting."""
+    import types
+    import deep.api.plugin as plugin_mod
+    from deep.api.plugin import load_plugins
+    from deep.api.plugin.metric import MetricProcessor
+    from deepproto.proto.tracepoint.v1.tracepoint_pb2 import Metric, MetricType
+    mod, path, marks = host
+    received = {}
+    mods = []
+
+    def make_module(mname, clsname, order):
+        m = types.ModuleType(mname)
+
+        class P(MetricProcessor):
+            def __init__(self, config=None):
+                super().__init__(config=config)
+                received.setdefault(mname, [])
+
+            def order(self):
+                return order
+
+            def counter(self, name, labels, namespace, help_string, unit, value):
+                received[mname].append(('counter', name, value))
+
+            def gauge(self, name, labels, namespace, help_string, unit, value):
+                received[mname].append(('gauge', name, value))
+
+            def histogram(self, name, labels, namespace, help_string, unit, value):
+                received[mname].append(('histogram', name, value))
+
+            def summary(self, name, labels, namespace, help_string, unit, value):
+                received[mname].append(('summary', name, value))
+
+            def clear(self):
+                pass
+        P.__name__ = clsname
+        P.__qualname__ = clsname
+        setattr(m, clsname, P)
+        sys.modules[mname] = m
+        mods.append(mname)
+        return '%s.%s' % (mname, clsname)
+    saved = plugin_mod.DEEP_PLUGINS
+    plugin_mod.DEEP_PLUGINS = []
+    try:
+        for label, spec_, custom, want in (
+                ('two modules, one class name', [('vacme_statsd', 'MetricsPlugin', 1), ('vacme_graphite', 'MetricsPlugin', 2)], {},
+                 {'vacme_statsd': 1, 'vacme_graphite': 1}),
+                ('different names', [('vacme_a', 'StatsdMetrics', 1), ('vacme_b', 'GraphiteMetrics', 2)], {},
+                 {'vacme_a': 1, 'vacme_b': 1}),
+                ('one of two switched off', [('vacme_on', 'OnMetrics', 1), ('vacme_off', 'OffMetrics', 2)],
+                 {'PLUGIN_OFFMETRICS': 'False'}, {'vacme_on': 1, 'vacme_off': 0})):
+            received.clear()
+            names = [make_module(*sp) for sp in spec_]
+            rg = R.Rig(custom=custom)
+            try:
+                rg.cfg.plugins = load_plugins(rg.cfg, names)
+                rg.install([{'id': 'tp-loaded', 'path': path.rsplit('/', 1)[-1], 'line': marks['measured'], 'args': {},
+                             'metrics': [Metric(name='hits', type=MetricType.COUNTER),
+                                         Metric(name='size', type=MetricType.GAUGE, expression='size')]}])
+                res = rg.run(mod.measured, 4, only_file=path)
+                got = {k: len(v) // 2 if len(v) % 2 == 0 else -len(v) for k, v in received.items()}
+                bad = None
+                if res != ('ok', 8) or rg.escaped:
+                    bad = 'host changed / handler raised: %r %r' % (res, rg.escaped)
+                elif got != want:
+                    bad = 'each processor received both metrics %s time(s), expected %s (received: %s)' % (got, want, received)
+            finally:
+                rg.close()
+            c.traces_validated += 1
+            c.note_case(key=('loaded-processors', label), nontrivial=True)
+            if bad:
+                path_ = c.save_replay({'kind': 'loaded-processors', 'case': label, 'plugins': names, 'what': bad})
+                c.violation('metric processors loaded by load_plugins (%s): %s' % (label, bad), path_)
+    finally:
+        plugin_mod.DEEP_PLUGINS = saved
+        for m in mods:
+            sys.modules.pop(m, None)
+
+
 def run(c):
     quick = c.tier == 'quick'
     wd = tlc.scratch('c17_')
@@ -211,6 +293,7 @@ def run(c):
                 shown += 1
                 if shown >= 8:
                     break
+    loaded_processors_leg(c, host)
     sys.modules.pop(host[0].__name__, None)
 
 
